@@ -66,6 +66,9 @@ enum Op {
     Signals { id: u8, proxy: u8, member: Option<u8> },
     /// drop handle `id` (streams: sync `Drop` or `async_drop`)
     Drop { id: u8, asynchronous: bool },
+    /// the bus refuses the next AddMatch it receives (out of quota): that creation fails, and nothing of it
+    /// may stay behind
+    RefuseNextAdd,
 }
 
 #[derive(Clone, Debug, Serialize, Deserialize, PartialEq)]
@@ -128,7 +131,7 @@ impl Scenario for C37Scn {
         "C37"
     }
     fn rule(&self) -> &'static str {
-        "a bus connection against the fake bus (which records AddMatch / RemoveMatch) runs 2..8 batches of 1..2 concurrent operations, quiescence between batches: create a MessageStream for one of 6 overlapping rules (incl. an untyped rule and a method-call rule that must never reach the bus), create a proxy (well-known or unique destination), create a proxy signal stream (one member or all signals; for well-known names this also subscribes to NameOwnerChanged twice and looks the owner up), drop any of them (Drop or async_drop); in a third of the runs one bus-talking operation is cancelled at one of its first await points (fault kind cancel_task; its handle then exists or not, and the bus must agree with whatever exists); oracle after every batch: the rules added and not removed == the distinct signal rules with a live subscriber, each exactly once, no AddMatch of a registered rule, no RemoveMatch of an unregistered one; non-trivial = two live subscribers shared one rule at some point, or two operations on the same rule ran concurrently"
+        "a bus connection against the fake bus (which records AddMatch / RemoveMatch) runs 2..8 batches of 1..2 concurrent operations, quiescence between batches: create a MessageStream for one of 6 overlapping rules (incl. an untyped rule and a method-call rule that must never reach the bus), create a proxy (well-known or unique destination), create a proxy signal stream (one member or all signals; for well-known names this also subscribes to NameOwnerChanged twice and looks the owner up), drop any of them (Drop or async_drop); now and then the bus refuses the next AddMatch (the creation that sent it must fail and leave nothing behind; a later subscription to the same rule must register it); in a third of the runs one bus-talking operation is cancelled at one of its first await points (fault kind cancel_task; its handle then exists or not, and the bus must agree with whatever exists); oracle after every batch: the rules added and not removed == the distinct signal rules with a live subscriber, each exactly once, no AddMatch of a registered rule, no RemoveMatch of an unregistered one; non-trivial = two live subscribers shared one rule at some point, or two operations on the same rule ran concurrently"
     }
     fn runs(&self, tier: Tier) -> u64 {
         match tier {
@@ -154,7 +157,8 @@ impl Scenario for C37Scn {
             for _ in 0..rng.range(1, 2) {
                 let proxies: Vec<u8> = kinds.iter().filter(|(id, k)| **k == 1 && !touched.contains(id)).map(|(id, _)| *id).collect();
                 let droppable: Vec<u8> = kinds.keys().copied().filter(|id| !touched.contains(id)).collect();
-                let op = match rng.below(10) {
+                let op = match rng.below(11) {
+                    10 => Op::RefuseNextAdd,
                     0..=2 => {
                         next += 1;
                         kinds.insert(next, 0);
@@ -182,6 +186,7 @@ impl Scenario for C37Scn {
                     }
                 };
                 match op {
+                    Op::RefuseNextAdd => {}
                     Op::Drop { id, .. } => touched.push(id),
                     Op::Signals { id, .. } => touched.push(id),
                     Op::Stream { id, .. } | Op::Proxy { id, .. } => touched.push(id),
@@ -277,10 +282,13 @@ impl Scenario for C37Scn {
         let mut verdict = None;
         let mut nontrivial = false;
         let mut cancelled_seen = false;
+        let mut refused_seen = false;
         let mut maybe_subscribed: BTreeMap<u8, u8> = BTreeMap::new();
         for (bi, batch) in p.batches.iter().enumerate() {
             let errors = shared(Vec::<String>::new());
             let mut tasks = vec![];
+            let refused_before = bus.lock().unwrap().refused.len();
+            bus.lock().unwrap().refuse_adds += batch.iter().filter(|o| matches!(o, Op::RefuseNextAdd)).count() as u32;
             for (oi, op) in batch.iter().enumerate() {
                 let cancel_at = match p.cancel {
                     Some((b, o, n)) if b as usize == bi && o as usize == oi => Some(n),
@@ -325,6 +333,7 @@ impl Scenario for C37Scn {
                                     handles.lock().unwrap().insert(id, Handle::Signals(s));
                                 }
                             }
+                            Op::RefuseNextAdd => {}
                             Op::Drop { id, asynchronous } => {
                                 let h = handles.lock().unwrap().remove(&id);
                                 match (h, asynchronous) {
@@ -344,8 +353,13 @@ impl Scenario for C37Scn {
             }
             w.run();
             drop(tasks);
-            if let Some(e) = errors.lock().unwrap().first() {
-                verdict = Some(Verdict::fail("op", "operation-failed", format!("batch {bi}: {e}")));
+            // an operation may fail only if the bus refused one of its AddMatch calls
+            let refused_now = bus.lock().unwrap().refused.len() - refused_before;
+            if refused_now > 0 {
+                refused_seen = true;
+            }
+            if errors.lock().unwrap().len() > refused_now {
+                verdict = Some(Verdict::fail("op", "operation-failed", format!("batch {bi}: {:?} (the bus refused {refused_now} AddMatch calls)", errors.lock().unwrap())));
                 break;
             }
             // update the model
@@ -380,6 +394,7 @@ impl Scenario for C37Scn {
                     Op::Drop { id, .. } => {
                         model.remove(&id);
                     }
+                    Op::RefuseNextAdd => {}
                 }
             }
             // shared rules?
@@ -416,7 +431,7 @@ impl Scenario for C37Scn {
                 let missing: Vec<&String> = want.difference(&live).collect();
                 let extra: Vec<&String> = live.difference(&want).collect();
                 let disc = if !missing.is_empty() { "rule-missing-on-bus" } else { "rule-leaked-on-bus" };
-                let disc = if cancelled_seen { format!("after-cancelled-operation-{disc}") } else { disc.to_string() };
+                let disc = if cancelled_seen { format!("after-cancelled-operation-{disc}") } else if refused_seen { format!("after-refused-add-match-{disc}") } else { disc.to_string() };
                 verdict = Some(Verdict::fail(
                     "balance",
                     disc,
